@@ -3,6 +3,7 @@ package main
 import (
 	"fmt"
 	"html"
+	"strconv"
 	"strings"
 	"unicode/utf8"
 )
@@ -145,6 +146,63 @@ func propC14(c *ctx) error {
 	for _, s := range []string{"&amp;", "&lt;", "&gt;", "&quot;", "&#39;", "&#x60;", "&copy", "&copy;", "Tom &amp; Jerry", "?id=1&copy=2", "&amp;amp;", "&", "a&b;", "&#34;x", "&nbsp;", "&#0;"} {
 		if err := check(s); err != nil {
 			return err
+		}
+	}
+	// escape SEQUENCES written in the source of an interpreted literal: every \xHH, every \OOO, \u/\U samples, the simple
+	// escapes, alone and in sequences (multi-byte UTF-8 spelled byte by byte); the oracle is Go's own strconv.Unquote of the
+	// double-quoted spelling; the single-quoted style denotes the same string
+	var bodies []string
+	for b := 0; b < 256; b++ {
+		bodies = append(bodies, fmt.Sprintf(`\x%02x`, b), fmt.Sprintf(`\%03o`, b))
+		if b%16 == 5 {
+			bodies = append(bodies, fmt.Sprintf(`\x%02X`, b), fmt.Sprintf(`a\x%02xb`, b), fmt.Sprintf(`\%03o7`, b))
+		}
+	}
+	for _, cp := range []int{0, 0x41, 0x7f, 0x80, 0xe9, 0xff, 0x100, 0x7ff, 0x800, 0x4e2d, 0xd7ff, 0xe000, 0xfffd, 0xffff} {
+		bodies = append(bodies, fmt.Sprintf(`\u%04x`, cp), fmt.Sprintf(`\U%08x`, cp))
+	}
+	bodies = append(bodies, `\U0001f600`, `\U0010ffff`, `\a\b\f\n\r\t\v\\`, `\xe4\xb8\xad`, `\344\270\255`, `x\xc3\xa9y`, `\xf0\x9f\x98\x80`, `\xff\xfe`, `\377\376a`, `\xc3`, `é\xe9\u00e9`, `\x80\u0080`)
+	for i := 0; i < c.n(60, 3000); i++ {
+		var sb strings.Builder
+		for k := 1 + r.n(5); k > 0; k-- {
+			sb.WriteString(r.pick(bodies))
+			if r.p(30) {
+				sb.WriteString(r.pick([]string{"a", "é", " ", "0", "7"}))
+			}
+		}
+		bodies = append(bodies, sb.String())
+	}
+	for _, body := range bodies {
+		want, uerr := strconv.Unquote(`"` + body + `"`)
+		for _, q := range []string{`"`, `'`} {
+			lit := q + body + q
+			out := implEvalStable(lit, []any{map[string]any{}})
+			res.eval("esc|"+lit, true, J{"literal": lit})
+			res.S3Checked++
+			res.count("escape_literals")
+			if uerr != nil {
+				if out.R == "ok" {
+					res.violate(J{"src": lit}, "error (Go rejects this escape)", out.V, "a literal with an invalid escape sequence evaluates to a value")
+				}
+				continue
+			}
+			if ws := "string:" + hexOf(want); out.R != "ok" || out.V != ws {
+				res.violate(J{"src": lit, "style": q}, ws, out.R+":"+out.V+" "+trunc(out.Err, 100), "a literal written with Go escape sequences does not evaluate to the string Go gives it")
+			}
+			if c.d != nil && utf8.ValidString(want) {
+				m, err := c.d.ask(J{"op": "eval", "src": lit, "data": nil})
+				if err != nil {
+					return err
+				}
+				if sget(m, "r") == "unsupported" {
+					res.S2Unsupported++
+				} else {
+					res.S2Compared++
+					if sget(m, "r") != out.R || (out.R == "ok" && sget(m, "v") != out.V) {
+						res.disagree(J{"src": lit}, J{"r": out.R, "v": out.V}, m, "eval of a literal with escape sequences")
+					}
+				}
+			}
 		}
 	}
 	for _, cs := range c.corpusCases() {
